@@ -109,22 +109,27 @@ theorem qubitAxis_rule (Lx Ly : Nat) (q : Coord) (h : q ∈ (lattice Lx Ly).qubi
 /-- 'XZZX': X↔Z exactly on the qubits whose axis is the deformation axis, identity elsewhere;
     `ValueError` (none) where `qubit_axis` raises -/
 theorem deformation_rule_XZZX (axis : String) (loc : Coord) (hax : axis = "x" ∨ axis = "y") :
-    getDeformation "XZZX" axis loc =
+    getDeformation "XZZX" (some axis) loc =
       (qubitAxis loc).map (fun a => if a = axis then PauliMap.swapXZ else PauliMap.id) :=
   deformBy_XZZX _ _ _ hax
 
 /-- 'XY': Y↔Z at every location -/
 theorem deformation_rule_XY (axis : String) (loc : Coord) (hax : axis = "x" ∨ axis = "y") :
-    getDeformation "XY" axis loc = some PauliMap.swapYZ :=
+    getDeformation "XY" (some axis) loc = some PauliMap.swapYZ :=
   deformBy_XY _ _ _ hax
+
+/-- a call that does not pass `deformation_axis` (the signature default `'y'`: `deform(name)` of
+    the visualizer backend and of simulation inputs without `deformation_kwargs`) deforms along y -/
+theorem deformation_default_axis (name : String) (loc : Coord) :
+    getDeformation name none loc = getDeformation name (some "y") loc := rfl
 
 /-- any other axis: ValueError -/
 theorem deformation_rule_bad_axis (name axis : String) (loc : Coord)
-    (hx : axis ≠ "x") (hy : axis ≠ "y") : getDeformation name axis loc = none :=
+    (hx : axis ≠ "x") (hy : axis ≠ "y") : getDeformation name (some axis) loc = none :=
   deformBy_bad_axis _ _ _ _ hx hy
 
 /-- any other name: ValueError -/
-theorem deformation_rule_bad_name (name axis : String) (loc : Coord)
+theorem deformation_rule_bad_name (name : String) (axis : Option String) (loc : Coord)
     (h1 : name ≠ "XZZX") (h2 : name ≠ "XY") : getDeformation name axis loc = none :=
   deformBy_bad_name _ _ _ _ h1 h2
 
@@ -132,7 +137,7 @@ theorem deformation_rule_bad_name (name axis : String) (loc : Coord)
     maps -/
 theorem deformation_rule_on_qubits (Lx Ly : Nat) (axis : String) (q : Coord)
     (hax : axis = "x" ∨ axis = "y") (h : q ∈ (lattice Lx Ly).qubits) :
-    getDeformation "XZZX" axis q =
+    getDeformation "XZZX" (some axis) q =
       some (if qubitAxis q = some axis then PauliMap.swapXZ else PauliMap.id) := by
   rw [deformation_rule_XZZX axis q hax]
   obtain ⟨x, y, rfl, h' | h'⟩ := qubitAxis_of_mem h <;> rw [h'.2.2] <;> simp
@@ -145,7 +150,11 @@ example : (lattice 3 2).getStab [2, 0] = [([1, 0], .Z), ([3, 0], .Z), ([2, 1], .
 example : (lattice 3 2).getStab [1, 1] = [([2, 1], .X), ([1, 0], .X), ([1, 2], .X)] := by decide
 example : (lattice 3 2).getStab [1, 0] = [] := by decide
 example : (lattice 3 2).toCodeData.n = 8 := by decide
-example : getDeformation "XZZX" "y" [2, 1] = some PauliMap.swapXZ := by decide
+example : getDeformation "XZZX" (some "y") [2, 1] = some PauliMap.swapXZ := by decide
+/-- keyword omitted: the default axis `y` -/
+example : getDeformation "XZZX" none [2, 1] = getDeformation "XZZX" (some "y") [2, 1] := rfl
+example : getDeformation "XY" none [2, 1] = some PauliMap.swapYZ := by decide
+example : getDeformation "XZZX" none [2, 1] ≠ getDeformation "XZZX" (some "x") [2, 1] := by decide
 example : IndepGenerators (lattice 3 2) (lattice 3 2).stabs := generators_independent 3 2
 example : (lattice 3 2).stabs.length = 7 := by decide
 example : ValidCodeL 8 1 (lattice 3 2).rowsH (lattice 3 2).rowsX
